@@ -8,7 +8,7 @@ from vlib import render as RR
 
 ID = "C17"
 # look-alikes of prelude names (vlib/defs.py HOSTILE) this check's derives are immune to on the unchanged tree
-HOSTILE_OK = ['Default', 'From', 'Into', 'Result', 'Option', 'Some', 'Ok', 'Iterator', 'Clone', 'AsRef', 'Send', 'PhantomData']
+HOSTILE_OK = ['Default', 'From', 'Into', 'Result', 'Option', 'Some', 'Ok', 'Iterator', 'Clone', 'AsRef', 'Send', 'PhantomData', 'IterGet', 'm_matches', 'm_assert', 'm_fmt']
 PROP_FILE = "Props/C17.v"
 RULE = ("fixed names: unit / tuple / named variants x {identifier, serialize_all, serialize, to_string} x prefix x ASCII and "
         "multi-byte names x a grid of format specs (fill {none,*,é,0} x align {none,<,>,^} x width x precision, run-time width/"
@@ -66,6 +66,13 @@ def placeholder_items():
         vs.append(Variant("N%d" % n, "named", [Field(f.ty, f.name) for f in fields], [tos(e)]))
     for i in range(0, len(vs), 9):
         items.append(Item("E", vs[i:i + 9]))
+    # placeholders that name NO field of the variant: format_args! captures them from the scope (a const, a static), or a field is used
+    # only as a `$` width / precision parameter — the variant still renders like format!
+    sv = [Variant("S1", "named", [Field("u8", "a")], [tos("frame of {LIMIT} bytes")]), Variant("S2", "named", [Field("u8", "a"), Field("String", "bb")], [tos("limit {LIMIT}{UNIT}")]),
+          Variant("S3", "named", [Field("usize", "w")], [tos("[{UNIT:>w$}]")]), Variant("S4", "named", [], [tos("{LIMIT}!")]),
+          Variant("S5", "named", [Field("usize", "w"), Field("usize", "p"), Field("String", "bb")], [tos("{bb:>w$.p$}|{LIMIT:03}")]),
+          Variant("S6", "named", [Field("u8", "a")], [tos("{a} of {LIMIT}")])]
+    items.append(Item("E", sv))
     # tuple: every permutation using every positional field
     tys = ["u8", "String", "i32"]
     vs = []
@@ -121,7 +128,7 @@ def build_corpus(tier, rng):
         vals = []
         for i, v in enumerate(it.variants):
             vals.append((i, [RR.SAMPLE[f.ty][0] for f in v.fields], "sample"))
-            ext = {"u8": "255u8", "String": 'String::from("{br}aces \\u{e9}")', "i32": "i32::MIN", "usize": "usize::MAX", "u16": "u16::MAX", "i64": "i64::MIN"}
+            ext = {"u8": "255u8", "String": 'String::from("{br}aces \\u{e9}")', "i32": "i32::MIN", "usize": "17usize", "u16": "u16::MAX", "i64": "i64::MIN"}
             vals.append((i, [ext[f.ty] for f in v.fields], "extreme"))
             vals.append((i, ["Default::default()" for f in v.fields], "default"))
         c.meta[k]["vals"] = vals
